@@ -144,10 +144,15 @@ class Th:
             else:
                 vals[name][idx] = 1.5 if base == "onehot" else vals[name][idx] + 1.25
         self.P = {n: (float(v) if v.shape == () else v.tolist()) for n, v in vals.items()}
+        # a precision need not be a python float: an integer-typed value (hand-built sample, attribute read back from a file)
+        # is a legal precision too - the patterns that set the precision entry use int 3 / numpy int64 5
+        prec = float(vals["precision"])
+        if base in ("onehot", "bump") and pat[1] == "precision":
+            prec = int(prec) if base == "onehot" else np.int64(int(prec))
         if typ == SDC:
             self.obj = SparseDrugComboMCMCSample(
                 W=vals["W"], W0=vals["W0"], V2=vals["V2"], V1=vals["V1"], V0=vals["V0"],
-                alpha=float(vals["alpha"]), precision=float(vals["precision"]))
+                alpha=float(vals["alpha"]), precision=prec)
             self.arrays = [vals[n] for n in ("W", "W0", "V2", "V1", "V0")]
         else:
             look = {}
@@ -156,7 +161,7 @@ class Th:
                 for t in range(nt):
                     look[(s, t)] = float(vals["L"][s, t])
             self.obj = SparseDrugComboInteractionMCMCSample(
-                W=vals["W"], V2=vals["V2"], precision=float(vals["precision"]), single_effect_lookup=look)
+                W=vals["W"], V2=vals["V2"], precision=prec, single_effect_lookup=look)
             self.arrays = [vals[n] for n in ("W", "V2")]
         last = [vals[n][nt - 1] for n in (("V2", "V1", "V0") if typ == SDC else ("V2",))]
         self.control_row_nonzero = any(np.any(np.asarray(x) != 0) for x in last)
@@ -340,6 +345,12 @@ class Ctx:
 
     def build(self, spec):
         k = spec["k"]
+        if k == "tile":
+            # a large screen: the row types of the universe repeated until spec["n"] rows (sparse probe, helpers only)
+            rts = [list(r) for r in rowtypes2(self.ns, self.nt)]
+            rows = [rts[i % len(rts)] for i in range(spec["n"])]
+            sc = self._screen(rows, 2)
+            return So(spec, sc, rows, 2)
         if k == "rows":
             sc = self._screen(spec["rows"], spec["a"])
             self._check_ids(sc, spec["rows"])
@@ -753,6 +764,12 @@ def run_item(item, col, tier):
                 raise
             for seq, declared in helper_sequences():
                 check_helper(ctx, item["type"], item["D"], seq, declared, so, col)
+        # sparse probe far above the enumerated sizes: 4096 rows x 20 and x 16 posterior samples, 3000 rows x 50 (any
+        # workload-dependent path of the helpers - blocking, chunked averaging - is taken at least once)
+        names = [["gradedA"], ["gradedB"], ["zero"]]
+        for n_rows, k in ((4096, 20), (4096, 16), (3000, 50)):
+            so = ctx.build({"k": "tile", "n": n_rows})
+            check_helper(ctx, item["type"], item["D"], [names[(i * i + i // 3) % 3] for i in range(k)], k, so, col, snap_screen=False)
         col.sample({"group": "helpers", "type": item["type"], "D": item["D"], "sequences": len(helper_sequences())})
         return
     tkeys = all_thetas(ns, nt, Ds)
